@@ -265,6 +265,9 @@ class Interp(ExprMixin, StmtMixin):
                 return h(self, callee, args, kwargs, node)
         if isinstance(callee, GlobalRef):
             path = callee.path
+            if path in getattr(self.contract, "records", ()) and not subscript:
+                # this contract's functions create instances of the class as immutable values (stated, with its source check, in the theory)
+                return R.EXTERNALS[path + ":record"].f(self, args, kwargs, node)
             if path in R.INLINE_CTORS and not subscript:
                 return self.inline_ctor(path, args, kwargs, node)
             if subscript:
@@ -401,11 +404,15 @@ class Interp(ExprMixin, StmtMixin):
             if "." in own[1] and self.entry_env and any(isinstance(v, ZV) and v.term.eq(recv.term) for k, v in list(self.entry_env.items())[:1]):
                 own_cls = own[0] + ":" + own[1].rsplit(".", 1)[0]
                 r0 = source.resolve_method(own_cls, bm.name)
-                if r0 and r0 in R.CONTRACTS:
+                if (r0 and r0 in R.CONTRACTS) or (own_cls + "." + bm.name) in R.CONTRACTS:
                     cls = own_cls
             tgt = source.resolve_method(cls, bm.name)
+            if tgt and (cls + "." + bm.name) in R.CONTRACTS:
+                tgt = cls + "." + bm.name          # a contract stated for this class (possibly for a method it inherits)
             if tgt and tgt in R.CONTRACTS:
-                return self.apply_contract(R.CONTRACTS[tgt], [recv] + list(args), kwargs, node)
+                fn_ = source.find_function(tgt)[1]
+                static = fn_ is not None and any(isinstance(d, ast.Name) and d.id == "staticmethod" for d in fn_.decorator_list)
+                return self.apply_contract(R.CONTRACTS[tgt], ([] if static else [recv]) + list(args), kwargs, node)
             if tgt and R.METHODS.get((tag, bm.name)) is None and R.METHODS.get((None, bm.name)) is None and not self.st.spec_mode:
                 r_ = self.inline_helper(tgt, args, kwargs, node, recv=recv)
                 if r_ is not NotImplemented:
@@ -784,7 +791,7 @@ class Interp(ExprMixin, StmtMixin):
 
     def b_getattr(self, args, kwargs, node):
         obj, name = args[0], args[1]
-        if not (isinstance(name, PyC) and isinstance(name.value, str)) or (isinstance(obj, ZV) and base_tag(obj.tag) == "Rewriter"):
+        if not (isinstance(name, PyC) and isinstance(name.value, str)) or (isinstance(obj, ZV) and base_tag(obj.tag) in ("Rewriter", "Replacer")):
             h = R.EXTERNALS.get("builtins.getattr:dynamic")
             if h:
                 return h.f(self, args, kwargs, node)
@@ -802,6 +809,39 @@ class Interp(ExprMixin, StmtMixin):
         if not h:
             raise Unsupported("hasattr(%r, %r)" % (obj, name))
         return h(self, obj)
+
+    def b_enumerate(self, args, kwargs, node):
+        """enumerate(seq) as the sequence of (index, element) pairs (start = 0 only)."""
+        if len(args) != 1 or kwargs:
+            raise Unsupported("enumerate with a start value")
+        sv = self.seq_of(args[0])
+        out = L.fresh("enum")
+        j = L.fresh("j", L.I)
+        self.st.assume(L.len_(out) == L.len_(sv.term))
+        self.st.assume(out != L.NONE)
+        self.st.assume(z3.ForAll([j], z3.Implies(z3.And(0 <= j, j < L.len_(sv.term)), L.nth(out, j) == L.mk_tuple([L.box_int(j), L.nth(sv.term, j)])), patterns=[L.nth(out, j)]))
+        et = self.elem_tag(sv)
+        return ZV(out, "Seq[Pair[int,%s]]" % (et or "any"))
+
+    def b_zip(self, args, kwargs, node):
+        """zip(*rows) for a non-empty sequence of pairs: the pair (firsts, seconds). Other uses of zip are handled where a for loop consumes them."""
+        if len(args) == 1 and isinstance(args[0], tuple) and args[0][0] == "*":
+            rows = self.seq_of(args[0][1])
+            n = L.len_(rows.term)
+            j = L.fresh("j", L.I)
+            self.partial(n > 0, "ValueError", node, "zip(*[]) unpacked")      # zip() of nothing yields nothing: the caller's two-target unpacking fails
+            self.oblige("safe:zip-rows-are-pairs@%d" % getattr(node, "lineno", 0),
+                        z3.ForAll([j], z3.Implies(z3.And(0 <= j, j < n), L.len_(L.nth(rows.term, j)) == 2), patterns=[L.nth(rows.term, j)]), getattr(node, "lineno", 0),
+                        clause="every row handed to zip(*rows) has two components")
+            cols = []
+            for c_ in (0, 1):
+                col = L.fresh("zipcol%d" % c_)
+                self.st.assume(col != L.NONE)
+                self.st.assume(L.len_(col) == n)
+                self.st.assume(z3.ForAll([j], z3.Implies(z3.And(0 <= j, j < n), L.nth(col, j) == L.nth(L.nth(rows.term, j), c_)), patterns=[L.nth(col, j)]))
+                cols.append(ZV(col, "seq"))
+            return PySeq(cols, "tuple")
+        raise Unsupported("zip(...) outside a for loop (line %s)" % getattr(node, "lineno", "?"))
 
     def b_sorted(self, args, kwargs, node):
         h = R.EXTERNALS.get("builtins.sorted")
